@@ -111,6 +111,19 @@ CHECKS["C01"] = dict(
     note="R-ZONE decides what a zone holds; scope D1/D2; alias chains that leave the authoritative zones are judged by the per-record rule only.",
     ref="DESIGN.md §4 C01")
 
+CHECKS["C09"] = dict(
+    level="exploration",
+    technique=PBT + "; end-to-end against the shipped binary over loopback UDP/TCP: generated message batches, replies read only by the independent decoder, differential against the in-process resolver for content; scripted loopback forwarder for the forwarding configuration",
+    text="Batches of well-formed, mutated, adversarial and runt messages are sent to a running resolved over UDP and TCP (whole, dribbled, half-closed, with trailing junk); every message must get no reply (QR=1, <2 octets) or exactly one reply with the same ID and QR set, with the rcode class, echo, RA, UDP size/TC and TCP length-prefix rules of the property, content equal to the in-process resolver's result through the documented mapping, answers only on the question's alias chain, and the process must stay up and answer a sentinel after every batch. A second server forwards to a scripted forwarder (cut datagrams, TC, garbage, aliases, NXDOMAIN, silence): every returned record must have been supplied by the forwarder or a zone file.",
+    note="Timing: replies are collected until the sentinel reply plus 60 ms; F14 (referral NS records in the answer section) is a listed known finding.",
+    ref="DESIGN.md §4 C09")
+CHECKS["C19"] = dict(
+    level="fault_enumeration",
+    technique=PBT + "; stateful histories of configuration edits and injected file faults against the shipped binary, SIGUSR1 reloads, version-marked records probed before, during and after each reload",
+    text="Histories of 3..10 reloads rewrite all configuration files with version-marked records, add/remove optional files and plant file faults (syntax error, non-UTF-8, file replaced by a directory or removed, bad hosts line, second SOA); the log must report success iff no fault was planted, every reply around the reload must be internally consistent and of the previous or new good version (incl. an alias crossing two files), afterwards every probe shows exactly the good version and optional records exist iff their file belongs to it, and the server answers every probe throughout.",
+    note="Probe timing relative to the swap is not controlled (DESIGN §7); the number of replies inside reload windows is reported.",
+    ref="DESIGN.md §4 C19")
+
 NOT_YET = {}
 
 def main():
